@@ -300,21 +300,26 @@ theorem copyLoop_bitsAll {P : β → Prop} (hreset : ∀ b, P b → P (I.reset b
     | panic p => exact h1
 
 theorem copyRemainingH_bitsAll {P : β → Prop} (hreset : ∀ b, P b → P (I.reset b))
-    (hrem : ∀ b, P b → P (I.remaining b)) {h : List (GCell β)} (hb : BitsAll P h) (t : Nat) :
+    (hrem : ∀ b b', P b → I.remaining b = .ok b' → P b') {h : List (GCell β)} (hb : BitsAll P h) (t : Nat) :
     BitsAll P (copyRemainingH I h t).2 := by
   unfold copyRemainingH
   cases hc : h[t]? with
   | none => exact hb
   | some c =>
     simp only
-    by_cases hl : I.len (I.remaining c.bits) > cellBits
+    cases hrb : I.remaining c.bits with
+    | panic p => exact hb
+    | err e => exact hb
+    | ok rb =>
+    simp only
+    by_cases hl : I.len rb > cellBits
     · rw [if_pos hl]; exact hb
     · rw [if_neg hl]
-      have hb0 : BitsAll P (h ++ [{ bits := I.remaining c.bits, refs := [], refCursor := 0 }]) :=
-        hb.append _ (hrem _ (hb t c hc))
+      have hb0 : BitsAll P (h ++ [{ bits := rb, refs := [], refCursor := 0 }]) :=
+        hb.append _ (hrem _ _ (hb t c hc) hrb)
       have := copyLoop_bitsAll I hreset (c.refs.length - c.refCursor) hb0 t h.length
       obtain ⟨r, h1, hl1⟩ : ∃ r h1, copyLoop I (c.refs.length - c.refCursor)
-        (h ++ [{ bits := I.remaining c.bits, refs := [], refCursor := 0 }]) t h.length = (r, h1) := ⟨_, _, rfl⟩
+        (h ++ [{ bits := rb, refs := [], refCursor := 0 }]) t h.length = (r, h1) := ⟨_, _, rfl⟩
       rw [hl1] at this
       simp only [hl1]
       cases r with
@@ -328,7 +333,7 @@ theorem copyRemainingH_bitsAll {P : β → Prop} (hreset : ∀ b, P b → P (I.r
 
 /-- a step preserves a predicate on the bits that the interface preserves -/
 theorem step_bitsAll {P : β → Prop} (hreset : ∀ b, P b → P (I.reset b)) (hfresh : P I.fresh)
-    (hrem : ∀ b, P b → P (I.remaining b)) {h : List (GCell β)} (hb : BitsAll P h) (t : Nat) (op : CellOp)
+    (hrem : ∀ b b', P b → I.remaining b = .ok b' → P b') {h : List (GCell β)} (hb : BitsAll P h) (t : Nat) (op : CellOp)
     (hop : ∀ z, op = .bit z → ∀ b, P b → P (I.runOp z b).2) : BitsAll P (step I h t op).2 := by
   have onCell_ok : ∀ (f : GCell β → Outcome Out × GCell β), (∀ c, P c.bits → P (f c).2.bits) →
       BitsAll P (onCell h t f).2 := by
@@ -390,14 +395,17 @@ theorem spec_step_no_panic {g : List (GCell Ideal)} (hw : WFH g) (hcap : BitsAll
     (fun z c _ _ p => zspec_ne_panic z c.bits p)
     (fun c hc => by
       obtain ⟨a, b⟩ := hcap t c hc
+      refine ⟨_, rfl, ?_⟩
       simp only [specI, List.length_drop]
       omega)
   refine ⟨h1.1, h1.2, ?_⟩
   apply step_bitsAll specI (P := CapOK)
   · intro b hb; exact hb
   · exact ⟨Nat.zero_le _, Nat.le_refl _⟩
-  · intro b ⟨a, c⟩
-    simp only [specI, CapOK, List.length_drop]
+  · intro b b' ⟨a, c⟩ hb'
+    simp only [specI, Outcome.ok.injEq] at hb'
+    subst hb'
+    simp only [CapOK, List.length_drop]
     omega
   · exact hcap
   · intro z hz b ⟨a, c⟩
